@@ -44,20 +44,26 @@ package constraint
 //@   pure
 //@   ensures result == (recv == f0)
 
-// value of the gate qL*a + qR*b + qO*c + qM*a*b + qC of the instruction with calldata cd = [xa xb xc qL qR qO qM qC ..]
-//@ spec func gateAt(s Solver, cd []uint32, a F, b F, o F) F = fadd(fadd(fadd(fadd(fmul(coeff(s, cd[3]), a), fmul(coeff(s, cd[4]), b)), fmul(coeff(s, cd[5]), o)), fmul(coeff(s, cd[6]), fmul(a, b))), coeff(s, cd[7]))
-//@ spec func gate(s Solver, cd []uint32) F = gateAt(s, cd, val(s, cd[0]), val(s, cd[1]), val(s, cd[2]))
+// value of the gate qL*a + qR*b + qO*c + qM*a*b + qC of a decompressed sparse constraint
+//@ spec func gateAt(s Solver, c SparseR1C, a F, b F, o F) F = fadd(fadd(fadd(fadd(fmul(coeff(s, c.QL), a), fmul(coeff(s, c.QR), b)), fmul(coeff(s, c.QO), o)), fmul(coeff(s, c.QM), fmul(a, b))), coeff(s, c.QC))
+//@ spec func gate(s Solver, c SparseR1C) F = gateAt(s, c, val(s, c.XA), val(s, c.XB), val(s, c.XC))
 //@ spec func twoSolved(s Solver, cd []uint32) bool = (solved(s, cd[0]) && solved(s, cd[1])) || (solved(s, cd[0]) && solved(s, cd[2])) || (solved(s, cd[1]) && solved(s, cd[2]))
 
-// Solve of the generic sparse gate: on success the gate holds under the resulting assignment and no
-// previously solved wire changed; it fails only if no value of the unsolved wire satisfies the gate.
+// Solve of the generic sparse gate. `c` is the function's local decompressed constraint; the first
+// postcondition ties it to the instruction's calldata [xa xb xc qL qR qO qM qC commitment]. On success
+// the gate holds under the resulting assignment and no previously solved wire changed; Solve fails
+// only if no value of the unsolved wire satisfies the gate (or, all wires solved, the gate is violated).
 //@ contract (*BlueprintGenericSparseR1C).Solve
-//@   props C06-blueprints
-//@   requires s != nil && len(inst.Calldata) >= 9 && twoSolved(s, inst.Calldata)
+//@   props C06
+//@   requires s != nil && len(inst.Calldata) >= 9 && twoSolved(s, inst.Calldata) && coeff(s, 0) == f0 && coeff(s, 1) == f1
 //@   nopanic
-//@   ensures @gate-holds result == nil && inst.Calldata[8] == 0 ==> gate(s, inst.Calldata) == f0
+//@   ensures @decompressed c.XA == inst.Calldata[0] && c.XB == inst.Calldata[1] && c.XC == inst.Calldata[2] && c.QL == inst.Calldata[3] && c.QR == inst.Calldata[4] && c.QO == inst.Calldata[5] && c.QM == inst.Calldata[6] && c.QC == inst.Calldata[7] && c.Commitment == inst.Calldata[8]
+//@   ensures @unchanged-xa old_solved(s, c.XA) ==> val(s, c.XA) == old_val(s, c.XA)
+//@   ensures @unchanged-xb old_solved(s, c.XB) ==> val(s, c.XB) == old_val(s, c.XB)
+//@   ensures @unchanged-xc old_solved(s, c.XC) ==> val(s, c.XC) == old_val(s, c.XC)
+//@   ensures @gate-holds result == nil && c.Commitment == 0 ==> gate(s, c) == f0
 //@   ensures @frame forall w int :: old(solved(s, w)) ==> solved(s, w) && val(s, w) == old(val(s, w))
-//@   ensures @fails-only-if-unsat-A result != nil && !old(solved(s, inst.Calldata[0])) ==> forall x F :: gateAt(s, inst.Calldata, x, val(s, inst.Calldata[1]), val(s, inst.Calldata[2])) != f0
-//@   ensures @fails-only-if-unsat-B result != nil && old(solved(s, inst.Calldata[0])) && !old(solved(s, inst.Calldata[1])) ==> forall x F :: gateAt(s, inst.Calldata, val(s, inst.Calldata[0]), x, val(s, inst.Calldata[2])) != f0
-//@   ensures @fails-only-if-unsat-C result != nil && old(solved(s, inst.Calldata[0])) && old(solved(s, inst.Calldata[1])) && !old(solved(s, inst.Calldata[2])) ==> forall x F :: gateAt(s, inst.Calldata, val(s, inst.Calldata[0]), val(s, inst.Calldata[1]), x) != f0
-//@   ensures @fails-only-if-violated result != nil && old(solved(s, inst.Calldata[0])) && old(solved(s, inst.Calldata[1])) && old(solved(s, inst.Calldata[2])) ==> gate(s, inst.Calldata) != f0
+//@   ensures @fails-only-if-unsat-A result != nil && !old(solved(s, inst.Calldata[0])) ==> forall x F :: gateAt(s, c, x, val(s, c.XB), val(s, c.XC)) != f0
+//@   ensures @fails-only-if-unsat-B result != nil && old(solved(s, inst.Calldata[0])) && !old(solved(s, inst.Calldata[1])) ==> forall x F :: gateAt(s, c, val(s, c.XA), x, val(s, c.XC)) != f0
+//@   ensures @fails-only-if-unsat-C result != nil && old(solved(s, inst.Calldata[0])) && old(solved(s, inst.Calldata[1])) && !old(solved(s, inst.Calldata[2])) ==> forall x F :: gateAt(s, c, val(s, c.XA), val(s, c.XB), x) != f0
+//@   ensures @fails-only-if-violated result != nil && old(solved(s, inst.Calldata[0])) && old(solved(s, inst.Calldata[1])) && old(solved(s, inst.Calldata[2])) ==> gate(s, c) != f0
